@@ -152,9 +152,9 @@ func (s *Spec) Proc(name string) *Proc {
 	return nil
 }
 
-// SplitPort splits "proc.port" at the first dot.
+// SplitPort splits "proc.port" at the last dot (process names may contain dots, port names do not).
 func SplitPort(s string) (string, string) {
-	i := strings.Index(s, ".")
+	i := strings.LastIndex(s, ".")
 	if i < 0 {
 		return s, ""
 	}
